@@ -114,7 +114,9 @@ class C20(Check):
         nproc = int(c.int('nproc', 1, 3))
         cls = FAULT_CLASSES[int(c.int('fault_class', 0, len(FAULT_CLASSES) - 1))]
         joint = bool(int(c.int('joint', 0, 1)))
+        with_message = bool(int(c.int('fault_has_message', 0, 1)))
         c.notes.update({'kind': 'task', 'K': K, 'limit': lim, 'round': fr, 'cluster': fk, 'env': env, 'nproc': nproc,
+                        'has_message': with_message,
                         'fault_class': cls.__mro__[1].__name__ if cls is not stubs.InjectedFault else 'Exception', 'joint': joint})
         # reference clean call first (fresh state)
         ref, r0, ml0 = self._call(c, K, lim, env=env, nproc=nproc, joint=joint)
@@ -145,13 +147,16 @@ class C20(Check):
         def tf2(task):
             if (task.tid // K) == fr and (task.tid % K) == fk:
                 injected.append(task)
-                raise cls('injected fault in task %d' % task.tid)
+                raise (cls('injected fault in task %d' % task.tid) if with_message else cls())
             return False
         try:
             res, raised, ml = self._call(c, K, lim, env=env, task_fault=tf2, nproc=nproc, joint=joint)
         finally:
             stubs.StubPool.apply_async = orig_apply
         c.outputs['raised'] = 1 if raised is not None else 0
+        if isinstance(raised, stubs.Hang):
+            c.prove('task_fault_propagates_unchanged', False, detail={'hangs': str(raised)})
+            return
         c.prove('task_fault_propagates_unchanged',
                 res is None and type(raised) is cls and len(injected) >= 1)
         later = [t for t in ml.trace if t[1] in ('relabel', 'bic', 'ch', 'point_ll') and t[0] >= fr] + \
